@@ -352,8 +352,11 @@ def report(ctx: click.Context, tjp_file: Optional[str], output_csv: bool, output
                 "This may indicate a scheduling issue with your project."
             )
 
-        # Get the primary output file (first one)
-        primary_output = output_files[0]
+        # Get the primary output file: the auto-generated report. The project file may
+        # define reports of its own in the same format, and directory order is arbitrary.
+        primary_output = temp_output_dir / f"{auto_report_id}.{output_format}"
+        if primary_output not in output_files:
+            raise ReportGenerationError("Report generation completed but the auto-generated report was not written.")
 
         if verbose:
             logger.debug("Reading report from: %s", primary_output)
